@@ -70,7 +70,9 @@ static void check_members(SleepQueue& S, int changed, bool now_member)
 static inline __attribute__((always_inline)) void step(const int n)
 {
     SleepQueue& S = *new (&SQs.v) SleepQueue;
+#ifndef NORESERVE
     S.q.reserve(NOBJ);                         // constant capacity: no reallocation inside the checked step
+#endif                                         // (NORESERVE: the vector grows by itself, push goes through _M_realloc_insert)
     // arbitrary valid heap: slot i holds thread object i (thread objects are interchangeable: every field that the heap reads is symbolic)
     for (int i = 0; i < NOBJ; i++) {
         thread* t = T(i);                      // zero-initialised static storage; the heap reads and writes only idx and ts_wakeup
@@ -189,7 +191,9 @@ void harness_sleepq()
     }
 #if OP == 0
     if (wit[0]) WITNESS("push into a heap of NMAX members");
+#if NMAX >= 3
     if (wit[1]) WITNESS("pushed element rose to the root");
+#endif
     if (wit[2]) WITNESS("pushed element stayed in the last slot");
     if (wit[3]) WITNESS("equal infinite deadlines");
 #elif OP == 1
